@@ -225,6 +225,36 @@ out = moved.reshape((-1,) + moved.shape[len(axes):])
 
 
 def check_flatten(s, rule):
+    # resolve_axes: negative batch axes are normalised against the BUFFER's batch rank (len(self.shape)). flatten_axes hands the
+    # result to moveaxis once per leaf, and leaves have trailing feature axes, so an axis left negative would name a feature axis there
+    br = s.builder(inline=set())
+    nzr = Normalizer(br)
+    locr = s.loc("AbstractBuffer", "resolve_axes")
+    n_res = 0
+    for pr in live(s.paths(br, "AbstractBuffer", "resolve_axes")):
+        first = pr.conds[0] if pr.conds else None
+        if first is None:
+            continue
+        is_none = any(isinstance(t, tuple) and t[0] == "cmp" and t[2] == ("param", "batch_axes") and t[3] == NONE and ((t[1] == "Is" and v) or (t[1] == "IsNot" and not v)) for t, v in pr.conds)
+        is_int = any(isinstance(t, tuple) and t[0] == "call" and t[1] == ("global", "isinstance") and t[2][0] == ("param", "batch_axes") and v for t, v in pr.conds)
+        A = "tuple(range(len(self.shape)))" if is_none else ("(batch_axes,)" if is_int else "tuple(batch_axes)")
+        bindr = {"self": ("param", "self"), "batch_axes": ("param", "batch_axes")}
+        wants = [nzr.canon(s.ref(br, f"tuple(a + len(self.shape) if a < 0 else a for a in {A})", bindr)), nzr.canon(s.ref(br, f"tuple(a % len(self.shape) for a in {A})", bindr))]
+        if is_none:
+            wants.append(nzr.canon(s.ref(br, A, bindr)))
+        if is_int:
+            # a one-element tuple is unrolled statically, so `batch_axes < 0` is a static case of the path
+            neg = [v for t, v in pr.conds if t == ("cmp", "Lt", ("param", "batch_axes"), ("const", 0))]
+            if neg:
+                wants = [nzr.canon(s.ref(br, "(batch_axes + len(self.shape),)" if neg[0] else "(batch_axes,)", bindr))]
+        got = nzr.canon(pr.ret)
+        n_res += 1
+        s.ob(rule, f"AbstractBuffer.resolve_axes[{'None' if is_none else 'int' if is_int else 'sequence'}]", got in wants,
+             "the resolved axes are the requested ones with negative entries normalised against the buffer's batch rank", locr, key="axes-normalised",
+             detail=f"code: {show_term(got, 300)}\nreference: {show_term(wants[0], 300)}",
+             necessary_for="every field of a row is regrouped along the same (environment, step) axes, whatever trailing feature axes the leaf has")
+    if n_res < 3:
+        raise AnalysisError(f"AbstractBuffer.resolve_axes: expected the None / int / sequence cases, analysed {n_res}")
     b = s.builder(inline=set())
     nz = Normalizer(b)
     con = "AbstractBuffer.flatten_axes"
